@@ -687,3 +687,6 @@ func VerifC07_Reject() {
 	vrt.Cover("C07.reject")
 	vrt.Assert("C07.rejects-outside-grammar", err != nil)
 }
+
+// VEqNode exposes the structural tree equality to harnesses in other packages.
+func VEqNode(a, b ast.IsNode) bool { return c07EqNode(a, b) }
